@@ -2,7 +2,9 @@
 # run every check (tier = $1, default quick), print one summary line each
 TIER=${1:-quick}
 cd "$(dirname "$0")/.."
-for i in 01 02 03 04 05 06 07 08 09 10 11 12 13 14 15 16 17 18 19 20; do
+# optional 2nd argument: the ids to run, e.g. "12 13 14"
+IDS=${2:-01 02 03 04 05 06 07 08 09 10 11 12 13 14 15 16 17 18 19 20}
+for i in $IDS; do
   S=$(date +%s)
   OUT=$(bin/vcheck C$i --tier $TIER 2>&1); RC=$?
   E=$(date +%s)
